@@ -416,6 +416,8 @@ Section PathProofs.
   Notation path := (path cond).
   Notation append := (append cond cond_eqb simp is_true vars).
   Notation step := (step cond cond_eqb simp is_true vars).
+  Notation extend := (extend cond cond_eqb simp is_true vars).
+  Notation activate := (activate cond cond_eqb simp is_true vars).
   Notation run := (run cond cond_eqb simp is_true vars).
   Notation conds p := (map fst (conditions p)).
 
@@ -429,7 +431,16 @@ Section PathProofs.
     intros p c b. unfold SmtTextModel.append. simpl. rewrite has_cond_map.
     destruct (is_true (simp c)); simpl; [reflexivity|].
     destruct (existsb (cond_eqb (simp c)) (conds p)); simpl; [reflexivity|].
+    destruct (get_related cond p (vars (simp c))) as [rel m1]. simpl.
     rewrite map_app. reflexivity.
+  Qed.
+
+  Lemma append_pending : forall p c b, pending (append p c b) = pending p.
+  Proof.
+    intros p c b. unfold SmtTextModel.append.
+    destruct (is_true (simp c)); [reflexivity|].
+    destruct (has_cond cond cond_eqb (simp c) (conditions p)); [reflexivity|].
+    destruct (get_related cond p (vars (simp c))) as [rel m1]. reflexivity.
   Qed.
 
   Lemma add_all_app : forall cs1 cs2 acc, add_all acc (cs1 ++ cs2) = add_all (add_all acc cs1) cs2.
@@ -438,29 +449,59 @@ Section PathProofs.
     destruct (is_true (simp c) || existsb (cond_eqb (simp c)) acc); apply IH.
   Qed.
 
-  Lemma step_conds : forall p o q, step p o = Some q ->
-    conds q = add_all (conds p) (accumulated cond [o]).
+  Lemma extend_conds : forall cs p b, conds (extend p cs b) = add_all (conds p) cs.
   Proof.
-    intros p o q H. destruct o as [c b|c|vs|s0]; simpl in H; simpl.
-    - inversion H; subst. apply append_conds.
+    unfold SmtTextModel.extend.
+    induction cs as [|c cs IH]; intros p b; simpl fold_left; [reflexivity|].
+    rewrite IH, append_conds. change (c :: cs) with ([c] ++ cs)%list. rewrite add_all_app. reflexivity.
+  Qed.
+
+  Lemma extend_pending : forall cs p b, pending (extend p cs b) = pending p.
+  Proof.
+    unfold SmtTextModel.extend.
+    induction cs as [|c cs IH]; intros p b; simpl fold_left; [reflexivity|].
+    rewrite IH. apply append_pending.
+  Qed.
+
+  Lemma activate_conds : forall p, conds (activate p) = add_all (conds p) (pending p).
+  Proof. intros p. unfold SmtTextModel.activate. cbn [conditions]. apply extend_conds. Qed.
+
+  Lemma activate_pending : forall p, pending (activate p) = [].
+  Proof. reflexivity. Qed.
+
+  (* one step: the conditions grow by what joins the path, the pending list is the model's *)
+  Lemma step_conds : forall p o q r, step p o = Some q ->
+    add_all (conds q) (accumulated_from cond (pending q) r)
+    = add_all (conds p) (accumulated_from cond (pending p) (o :: r)).
+  Proof.
+    intros p o q r H. destruct o as [c b|c|c| |vs|s0]; simpl in H; cbn [accumulated_from].
+    - inversion H; subst. rewrite append_pending, append_conds.
+      change (c :: accumulated_from cond (pending p) r) with ([c] ++ accumulated_from cond (pending p) r)%list.
+      rewrite add_all_app. reflexivity.
     - unfold branch in H. destruct (pending p) eqn:Hp; [|discriminate]. inversion H; subst.
-      unfold activate, extend. cbn [pending conditions fold_left].
-      rewrite append_conds. reflexivity.
-    - unfold slice in H. destruct (sliced p); [discriminate|]. inversion H; subst. reflexivity.
+      rewrite activate_pending, activate_conds. cbn [pending conditions].
+      change (c :: accumulated_from cond [] r) with ([c] ++ accumulated_from cond [] r)%list.
+      rewrite add_all_app. reflexivity.
+    - unfold branch in H. destruct (pending p) eqn:Hp; [|discriminate]. inversion H; subst.
+      reflexivity.
+    - inversion H; subst. rewrite activate_pending, activate_conds, add_all_app. reflexivity.
+    - unfold slice in H. destruct (sliced p); [discriminate|].
+      destruct (get_related cond p vs) as [rel m']. inversion H; subst. reflexivity.
     - inversion H; subst. reflexivity.
   Qed.
 
-  Lemma run_conds : forall ops p q, run p ops = Some q ->
-    conds q = add_all (conds p) (accumulated cond ops).
+  Lemma run_conds_gen : forall ops p q, run p ops = Some q ->
+    conds q = add_all (conds p) (accumulated_from cond (pending p) ops).
   Proof.
     induction ops as [|o ops IH]; intros p q H; simpl in H.
     - inversion H; subst. reflexivity.
     - destruct (step p o) as [p'|] eqn:Hs; [|discriminate].
-      assert (Hacc : accumulated cond (o :: ops) = (accumulated cond [o] ++ accumulated cond ops)%list).
-      { unfold accumulated. simpl. rewrite app_nil_r. reflexivity. }
-      rewrite Hacc, add_all_app, <- (step_conds _ _ _ Hs).
-      apply IH. exact H.
+      rewrite <- (step_conds _ _ _ ops Hs). apply IH. exact H.
   Qed.
+
+  Lemma run_conds : forall ops s0 q, run (empty_path cond s0) ops = Some q ->
+    conds q = add_all [] (accumulated cond ops).
+  Proof. intros ops s0 q H. apply (run_conds_gen _ _ _ H). Qed.
 
   Lemma add_all_sem : forall e cs acc,
     Forall (sem e) (add_all acc cs) <-> Forall (sem e) acc /\ Forall (sem e) cs.
@@ -532,7 +573,7 @@ Section PathProofs.
      <-> path_constraints_hold sem e (accumulated cond ops)).
   Proof.
     intros ops s0 p cs e Hrun. unfold path_constraints_hold.
-    pose proof (run_conds _ _ _ Hrun) as Hc. simpl in Hc.
+    pose proof (run_conds _ _ _ Hrun) as Hc.
     assert (Hsem : Forall (sem e) (conds p) <-> Forall (sem e) (accumulated cond ops)).
     { rewrite Hc. rewrite add_all_sem. split; [intros [_ H]; exact H | intros H; split; [constructor | exact H]]. }
     rewrite <- Hsem. destruct cs.
@@ -549,13 +590,16 @@ Section PathProofs.
       = add_all [] (accumulated cond ops)
     /\ snd (to_smt2 cond cid p cs) = map cid (add_all [] (accumulated cond ops)).
   Proof.
-    intros ops s0 p cs Hrun. pose proof (run_conds _ _ _ Hrun) as Hc. simpl in Hc.
+    intros ops s0 p cs Hrun. pose proof (run_conds _ _ _ Hrun) as Hc.
     rewrite to_smt2_asserted, to_smt2_ids, Hc. split; reflexivity.
   Qed.
 
   (* slicing never changes `conditions` (hence never the query), only the solver *)
   Lemma slice_conds : forall (p q : path) vs, slice cond p vs = Some q -> conditions q = conditions p.
-  Proof. intros p q vs H. unfold slice in H. destruct (sliced p); [discriminate|]. inversion H; reflexivity. Qed.
+  Proof.
+    intros p q vs H. unfold slice in H. destruct (sliced p); [discriminate|].
+    destruct (get_related cond p vs) as [rel m']. inversion H; reflexivity.
+  Qed.
 
   Lemma extend_path_conds : forall (p parent : path), conditions (extend_path cond p parent) = conditions parent.
   Proof. reflexivity. Qed.
